@@ -693,6 +693,11 @@ impl<K: CacheKey + 'static> AsyncCache<K> for DiskCache<K> {
                     attempts += 1;
                     continue;
                 }
+                // Every attempt was wiped by concurrent clear() calls: the value
+                // counts as stored and cleared again, which is not a failure.
+                Err(CacheError::Io(e)) if e.kind() == std::io::ErrorKind::NotFound => {
+                    return Ok(());
+                }
                 Err(e) => return Err(e),
             };
 
@@ -737,6 +742,8 @@ impl<K: CacheKey + 'static> AsyncCache<K> for DiskCache<K> {
                     // A concurrent clear() wiped the temporary file before it
                     // could be published: write it again.
                     Err(e) if e.kind() == std::io::ErrorKind::NotFound && attempts < 2 => Ok(false),
+                    // Wiped again after the last attempt: stored and cleared (see above)
+                    Err(e) if e.kind() == std::io::ErrorKind::NotFound => return Ok(()),
                     Err(e) => {
                         let _ = fs::remove_file(&temp_path);
                         Err(CacheError::Io(e))
